@@ -473,6 +473,15 @@ class G:
             out = [f"{t}: f32"] + out
         return out
 
+    def m_triangular(self):
+        """triangular nests: the inner bounds mention the outer variable (reorder_loops /
+        lift_scope must refuse, divide/cut/shift must keep the dependence)."""
+        r = self.r
+        self.use("x", "y")
+        lo, hi = r.choice([("i", "n"), ("0", "i + 1"), ("i", "n"), ("i + 1", "n"), ("0", "i")])
+        body = r.choice(["y[j] += x[i]", "y[i] += x[j]", f"y[j] = x[i] * {self.const()}"])
+        return ["for i in seq(0, n):", f"    for j in seq({lo}, {hi}):", f"        {body}"]
+
     def m_fold(self):
         self.use("x", "y")
         c = self.const()
@@ -486,7 +495,7 @@ class G:
     MOTIFS = [
         "elementwise", "nest2d", "temp", "accum", "stencil", "guard", "small", "vec4", "call", "window",
         "two_loops", "reduce_consts", "repeat", "padded_acc", "row_alloc", "masked", "shift_copy", "else_alloc",
-        "two_ifs", "instr_calls", "sliding", "temp2d", "fold", "prefix", "bcast",
+        "two_ifs", "instr_calls", "sliding", "temp2d", "fold", "prefix", "bcast", "triangular",
     ]
 
     # ops whose side conditions are decided by what the motif contains: the session
@@ -519,6 +528,7 @@ class G:
         "fold": ["fold_into_reduce", "split_write", "merge_writes", "commute_expr", "left_reassociate_expr", "bind_expr"],
         "prefix": ["fission", "autofission", "fuse", "reorder_stmts", "reorder_loops", "stage_mem", "lift_scope", "divide_loop", "merge_writes"],
         "bcast": ["fission", "autofission", "lift_alloc", "sink_alloc", "autolift_alloc", "reorder_loops", "inline_assign", "expand_dim", "bind_expr", "lift_scope"],
+        "triangular": ["reorder_loops", "lift_scope", "divide_loop", "cut_loop", "shift_loop", "fission", "unroll_loop", "mult_loops", "parallelize_loop", "remove_loop", "add_loop"],
         "config": ["bind_config", "write_config", "delete_config", "reorder_stmts", "fission", "inline", "call_eqv", "fuse"],
         "cfg_rwo": ["delete_config", "write_config", "reorder_stmts", "bind_config", "fission", "lift_scope"],
         "cfg_cond": ["delete_config", "write_config", "bind_config", "reorder_stmts", "lift_scope", "eliminate_dead_code", "specialize"],
